@@ -659,6 +659,10 @@ def run(prop, tier, seed, replay=None):
         from checks import agreement
         pair_cov = agreement.pairs_stage(res, prop, tier)
 
+    if prop == "C07":
+        from checks import budget
+        pair_cov.update(budget.budget_stage(res, tier))
+
     res.coverage = {
         "states": fam["states"], "transitions": fam["transitions"],
         "traces_validated_against_impl": fam["conform"],
